@@ -425,6 +425,17 @@ package schema
 //@ func (RangeBoundarySlicer).Contiguous
 //@   params lower higher
 //@   ensures result == (!isDrb(self) && ubint(lower) + 1 == ubint(higher))
+// The three whole-number implementations compare in their own integer type (no detour through float64, where
+// neighbours above 2^53 coincide); the decimal64 one never reports contiguity.
+//@ func (RbSlice).Contiguous
+//@   ensures implies(is(lower, int64) && is(higher, int64) && ubint(lower) < 9223372036854775807, result == (ubint(lower) + 1 == ubint(higher)))
+//@ func (UrbSlice).Contiguous
+//@   ensures implies(is(lower, uint64) && is(higher, uint64) && ubint(lower) < 18446744073709551615, result == (ubint(lower) + 1 == ubint(higher)))
+//@ func (LbSlice).Contiguous
+//@   ensures implies(is(lower, uint64) && is(higher, uint64) && ubint(lower) < 18446744073709551615, result == (ubint(lower) + 1 == ubint(higher)))
+//@ func (DrbSlice).Contiguous
+//@   nopanic
+//@   ensures !result
 //@ func (RangeBoundarySlicer).Create
 //@   params entries capacity
 //@   ensures result != nil && sameKind(result, self) && rb_len(result) == entries
